@@ -22,7 +22,8 @@ VERIF_DECLARE_IN
 
 #ifdef VERIF_CBMC
 void log_fatal(const char *format, ...) { (void)format; }
-void os_abort(void) { VERIF_ASSERT(0, "os_abort() unreachable"); __CPROVER_assume(0); }
+static int g_abort_expected;
+void os_abort(void) { VERIF_ASSERT(g_abort_expected, "os_abort() unreachable"); __CPROVER_assume(0); }
 #endif
 
 #include "elem.c"
@@ -45,6 +46,31 @@ void h_file_block_size(void)
 	VERIF_ASSERT(begin + (data_off_t)r == end, "file_block_size: block pos covers bytes [pos*bs, min(size, (pos+1)*bs))");
 	VERIF_ASSERT(r >= 1 && r <= bs, "file_block_size: no empty and no oversized block");
 	VERIF_ASSERT(file_block_is_last(&F, IN.pos) == (end == IN.size), "file_block_is_last iff the block ends the file");
+	VERIF_CANARY();
+}
+
+/*
+ * fs_file2block_get is the guard every record decoder of the content file goes through before touching the block
+ * vector of a file (e.g. the block runs of an 'f' record whose index arithmetic wraps at 2^32): it returns only for
+ * positions inside the vector, otherwise the process stops.
+ */
+void h_file2block_guard(void)
+{
+	static struct snapraid_file F;
+	static unsigned char vec[4 * (sizeof(struct snapraid_block) + HASH_MAX)];
+	struct snapraid_block *b;
+	VERIF_INPUTS();
+	BLOCK_HASH_SIZE = 16;
+	F.blockmax = (block_off_t)(IN.size & 0xffffffffu);
+	F.blockvec = (struct snapraid_block *)vec;
+	F.sub = "f";
+	g_abort_expected = 1;
+#ifdef VERIF_NATIVE
+	exit(77);
+#endif
+	b = fs_file2block_get(&F, IN.pos);
+	VERIF_ASSERT(IN.pos < F.blockmax, "fs_file2block_get returns only for a position inside the file's block vector");
+	VERIF_ASSERT((unsigned char *)b == vec + (size_t)IN.pos * block_sizeof(), "fs_file2block_get returns the block at that position");
 	VERIF_CANARY();
 }
 
